@@ -673,6 +673,9 @@ def n_r8_cookies(p: Project, rep: Report):
     for n in sets:
         v = n.stmt.value
         fresh = isinstance(v, ast.Call) and (dotted(v.func) or "").split(".")[-1].endswith("CookieJar") and not v.args
+        if fresh and v.keywords:
+            # CookieJar(policy=...): which of the server's cookies are kept and replayed is then the policy's decision
+            rep.check("N-R8", "__init__:jar-default-policy", False, f"self.cookiejar = {text(v)[:70]}: the jar is given a cookie policy of its own; cookies a server sets that this policy refuses (domain cookies of multi-label hosts under a strict-domain policy, ...) are not replayed on the later requests of the client", loc(p, n.stmt))
         rep.check("N-R8", "__init__:jar-is-fresh", fresh, f"self.cookiejar = {text(v)}: not a freshly constructed jar, so it can be shared between client instances" if not fresh else "", loc(p, n.stmt))
     rep.check("N-R8", "OFXClient:no-class-level-jar", "cookiejar" not in ci.attrs, "cookiejar is a class attribute (shared by all instances)" if "cookiejar" in ci.attrs else "", loc(p, ci.node))
     # nowhere else
